@@ -37,6 +37,28 @@ pub fn check_value(e: &Entry, v: &Val, stats: &mut Stats) -> Result<(), Violatio
 		stats.nontrivial(&(e.name, &bytes));
 	}
 	stats.sample(|| json!({"type": e.name, "value": v.brief(120), "bytes": hex(&bytes)}));
+	// the other ways of producing the bytes (streaming into a sink, the borrowed-slice callback) are held to the
+	// same reference: a nested value is always written through `encode_to`, a top-level one through `encode`
+	if bytes == expected && bytes.len() <= 4096 {
+		if let Some(all) = e.encode_all {
+			if let Ok(o) = guard(|| all(v)) {
+				for (what, got) in [("encode_to(Vec)", &o.encode_to_vec), ("encode_to(dyn Output)", &o.dyn_out), ("using_encoded", &o.using_encoded)] {
+					if *got != expected {
+						return Err(Violation::new(
+							format!("C01/bytes-{}/{}", sanitize(what), e.ty.family()),
+							format!(
+								"type {}: {what} produces bytes that differ from the SCALE reference\nvalue    {}\ncrate    {}\nreference {}",
+								e.name,
+								as_model.brief(300),
+								hex(got),
+								hex(&expected)
+							),
+						));
+					}
+				}
+			}
+		}
+	}
 	if bytes != expected {
 		let at = bytes.iter().zip(&expected).position(|(a, b)| a != b).unwrap_or(bytes.len().min(expected.len()));
 		return Err(Violation::new(
